@@ -31,6 +31,41 @@ package app
 //@ func (*App).txDeliverer$1
 //@   aimcheck app.Context.deliver                // C07.aim
 //@   aimexempt transactions.TransactionStore     // the internal-transaction queue lives in its own State, never re-aimed by Action()
+// ---- C06.store-memo: in-memory state of long-lived objects written while a transaction is delivered
+// DiscardTxSession undoes what went through storage.State and nothing else. Over the whole call graph of txDeliverer$1
+// (static calls, interface calls by class hierarchy, function values by signature), the fields of struct types reachable
+// from the application context that are written (field stores, map updates, deletes; objects the writer allocated itself
+// excepted) are exactly the ones listed, each group with the reason it cannot carry a failed transaction's effect into
+// the next one. A new field written there is a new, failing obligation: maywrite[<field>].
+//@   longlived app.context                       // C06.store-memo
+// re-pointing of the shared store objects (WithState / WithPrefix / WithHeight / WithLevel): which State they point to is C07's subject
+//@   maywrite balance.NesterAccountKeeper.state, balance.Store.State, bid_data.BidConvStore.prefix, bid_data.BidConvStore.state     // C06.store-memo
+//@   maywrite bid_data.BidOfferStore.State, bitcoin.TrackerStore.State, delegation.DelegationStore.state, ethereum.TrackerStore.prefix     // C06.store-memo
+//@   maywrite ethereum.TrackerStore.state, evidence.EvidenceStore.state, evm.ContractStore.State, fees.Store.state     // C06.store-memo
+//@   maywrite governance.ProposalFundStore.State, governance.ProposalStore.prefix, governance.ProposalStore.state, governance.ProposalVoteStore.store     // C06.store-memo
+//@   maywrite governance.Store.height, governance.Store.state, identity.ValidatorStore.store, identity.WitnessStore.store     // C06.store-memo
+//@   maywrite log.Logger.level, network_delegation.DelegRewardStore.state, network_delegation.Store.State, network_delegation.Store.currentPrefix     // C06.store-memo
+//@   maywrite ons.DomainStore.State, rewards.RewardCumulativeStore.state, rewards.RewardStore.State     // C06.store-memo
+// the transaction session and gas meter of storage.State: exactly what DiscardTxSession / Commit manage (C09/C06 storage contracts)
+//@   maywrite storage.KeyValue.version, storage.State.txSession, storage.cacheSession.done, storage.cacheSession.keys     // C06.store-memo
+//@   maywrite storage.cacheSession.store, storage.gasCalculator.consumed, storage.sessionCache.done, storage.sessionCache.keys     // C06.store-memo
+//@   maywrite storage.sessionCache.store     // C06.store-memo
+// the per-transaction cache of the EVM adapter and the accounts in it: emptied by Finalise on every path (C06.evm-cache-empty, C06.evm-finalised)
+//@   maywrite balance.EthAccount.CodeHash, balance.EthAccount.Coins, balance.EthAccount.Sequence, vm.CommitStateDB.accessList     // C06.store-memo
+//@   maywrite vm.CommitStateDB.addressToObjectIndex, vm.CommitStateDB.dbErr, vm.CommitStateDB.hashToPreimageIndex, vm.CommitStateDB.journal     // C06.store-memo
+//@   maywrite vm.CommitStateDB.refund, vm.CommitStateDB.stateObjects, vm.CommitStateDB.stateObjectsDirty, vm.CommitStateDB.thash     // C06.store-memo
+//@   maywrite vm.CommitStateDB.validRevisions, vm.State.Value, vm.accessList.addresses, vm.accessList.slots     // C06.store-memo
+//@   maywrite vm.dirty.changes, vm.journal.addressToJournalIndex, vm.journal.dirties, vm.journal.entries     // C06.store-memo
+//@   maywrite vm.stateEntry.stateObject, vm.stateObject.deleted, vm.stateObject.dirtyCode, vm.stateObject.dirtyStorage     // C06.store-memo
+//@   maywrite vm.stateObject.keyToDirtyStorageIndex, vm.stateObject.keyToOriginStorageIndex     // C06.store-memo
+// values decoded from the store or the transaction (option records, keys, coins, validator records) and the option caches refreshed from them
+//@   maywrite balance.Coin.Amount, balance.Coin.Currency, evidence.LastValidatorHistory.ReleaseAt, evidence.LastValidatorHistory.ReleaseHeight     // C06.store-memo
+//@   maywrite fees.FeeOption.MinFeeDecimal, fees.FeeOption.minimalFee, fees.Store.feeOpt, governance.ProposalOption.FundingDeadline     // C06.store-memo
+//@   maywrite governance.ProposalOption.FundingGoal, governance.ProposalOption.InitialFunding, governance.ProposalOption.PassPercentage, governance.ProposalOption.VotingDeadline     // C06.store-memo
+//@   maywrite governance.ProposalStore.proposalOptions, identity.Validator.Power, identity.Validator.StakeAddress, identity.Validator.Staking     // C06.store-memo
+//@   maywrite keys.PrivateKey.Data, keys.PrivateKey.Keytype, keys.PublicKey.Data, keys.PublicKey.KeyType     // C06.store-memo
+//@   maywrite ons.DomainStore.opt, ons.Options.BaseDomainPrice, ons.Options.PerBlockFees, ons.Options.firstLevel     // C06.store-memo
+//@   maywrite ons.Options.protocols     // C06.store-memo
 
 //@ func (*App).blockEnder$1
 //@   aimcheck app.Context.deliver                // C07.aim
